@@ -3,6 +3,7 @@ C09 — the serialized bridge is a faithful, correctly routed image of the core.
 Model: M.Bridge (bridge/mod.rs:198-231, registry.rs, request_serde.rs) over M.Slab.
 -/
 import CruxVerif.Lemmas.Bridge
+import CruxVerif.Lemmas.BridgeInv
 namespace Props.C09
 open M M.Rt M.Bridge M.Slab
 
@@ -66,5 +67,37 @@ theorem unknown_id_panics (reg : Slab Resolve) (id : Nat) (d : Option Val) (w : 
     resume reg id d w = (.panic, reg, w) := resume_unknown_panics reg id d w hg
 
 example : (registerAll (Slab.empty) [⟨⟨1, 0⟩, .never⟩, ⟨⟨2, 0⟩, .once 0⟩]).1.map (·.1) = [0, 1] := by decide
+
+/-- THE BRIDGE IS A REGISTRY AROUND THE SAME CORE: every invariant of the Core that `process_event`, `process`, a resolve, a
+    sender drop and an abort preserve holds in EVERY state the serialized Bridge reaches, after every history of events,
+    raw (possibly undecodable) events, responses, raw responses, stale or unknown ids, aborts and probes — every path
+    through the Bridge (`process` with and without an id, the early return on a rejected response) is a composition of
+    those five operations on the Core it wraps. -/
+theorem bridge_preserves_core_invariants (P : Core → Prop) (ops : M.Hosts.CoreOps P) (prog : M.Hosts.Prog)
+    (h0 : P ({ prog := prog } : Core)) (canon : Bool) (acts : List M.Hosts.Action) (os : List M.Hosts.Obs)
+    (h : M.Hosts.BridgeHost) (hr : M.Hosts.runBridge prog canon acts = some (os, h)) : P h.b.core :=
+  M.Hosts.runBridge_inv ops prog h0 canon acts os h hr
+
+/-- instance: hosting order and channel ownership (C06 / C02) behind the Bridge, for every app with host-free task bodies -/
+theorem bridge_core_owns_channels (prog : M.Hosts.Prog) (hp : progHF prog) (canon : Bool) (acts : List M.Hosts.Action)
+    (os : List M.Hosts.Obs) (h : M.Hosts.BridgeHost) (hr : M.Hosts.runBridge prog canon acts = some (os, h)) :
+    HL h.b.core.w ∧ ∀ l, (h.b.core.w.cmds.map (cmdCnt l)).sum + ecnt l h.b.core.execTasks.values + ecnt l h.b.core.w.execSpawn
+      ≤ (if l < h.b.core.w.leaves.length then 1 else 0) := by
+  have c := M.Hosts.runBridge_inv M.Hosts.CInv_ops prog (M.Hosts.CInv_init prog hp) canon acts os h hr
+  refine ⟨c.hl, fun l => ?_⟩
+  have := c.bound l
+  unfold E bnd G at this
+  omega
+
+/-- instance: the scheduling invariant (C01, no lost wake-up) behind the Bridge, for flat apps: in every reachable state in
+    which the executor's queues are empty — every state in which a call that ran `process` has just returned — no live,
+    un-aborted command has anything left to do -/
+theorem bridge_core_quiescent_flat (prog : M.Hosts.Prog) (hp : progFlat prog) (canon : Bool) (acts : List M.Hosts.Action)
+    (os : List M.Hosts.Obs) (h : M.Hosts.BridgeHost) (hr : M.Hosts.runBridge prog canon acts = some (os, h))
+    (e1 : h.b.core.w.execSpawn = []) (e2 : h.b.core.w.execReady = []) (c : Nat) (hc : c < h.b.core.w.cmds.length)
+    (hal : (h.b.core.w.cmd c).alive = true) (hna : h.b.core.w.aborted c = false) :
+    (h.b.core.w.cmd c).ready = [] ∧ (h.b.core.w.cmd c).spawnQ = [] ∧ (h.b.core.w.cmd c).effects = [] ∧
+      (h.b.core.w.cmd c).events = [] :=
+  (M.Hosts.runBridge_inv M.Hosts.QI_ops prog (M.Hosts.QI_init prog hp) canon acts os h hr).quiescent e1 e2 c hc hal hna
 
 end Props.C09
